@@ -196,6 +196,56 @@ def _case(pat, eset, shift, dupe):
         return rt.ok()
 
 
+FAULT_OPS = [('unlink', 13), ('unlink', 30), ('rmdir', 13), ('rmdir', 39), ('unlink', 16), ('rmdir', 16)]
+FAULT_KINDS = ['file', 'dir', 'link-dir']
+
+
+def _fault_case(op, kind, nth, where):
+    """one removal performed by trash-rm fails (the payload, something inside it, or the .trashinfo): afterwards no
+    payload is left WITHOUT its .trashinfo (such a payload can be matched, listed, restored by nothing any more); a
+    .trashinfo left without payload is the safe half-way state (a re-run of the same trash-rm finishes the removal)"""
+    with rt.untraced():
+        name, eno = FAULT_OPS[op]
+        rt.begin(('fault', name, eno, FAULT_KINDS[kind], nth, where))
+        td = '/v/.Trash-1000'
+        nodes = [W.d('/h'), W.d('/v/d'), W.f('/v/keep', 'KEEP', 0o644, 800)] + K.sentinels('/v/out')
+        nodes += K.trashed(td, 'report', 'd/report', '2020-01-01T00:00:00', FAULT_KINDS[kind], 2000)
+        nodes += K.trashed(td, 'report2', 'd/report2', '2020-01-02T00:00:00', 'file', 2040)
+        nodes += K.trashed(td, 'other', 'd/other', '2020-01-03T00:00:00', 'file', 2060)
+        world = W.W(mounts=K.MOUNTS, cwd='/v/d', nodes=nodes)
+        sub = ('/files/' if where == 0 else '/info/')
+        hook = scen.OneShotFault(name, eno, pred=lambda a: bool(a) and isinstance(a[0], str) and (td + sub) in a[0], nth=nth)
+        m, res = scen.run_model(world, [{'snap': '/'}, C('rm', ['report*'], scen.env(), cwd='/v/d'), {'snap': '/'}], hook=hook)
+        before, r, after = res
+        label = '%s(errno %d) on the %s side:%s' % (name, eno, 'payload' if where == 0 else 'info', FAULT_KINDS[kind])
+        if not hook.injected:
+            return rt.ok()
+        ents = scen.trash_entries(after, td)
+        was = scen.trash_entries(before, td)
+        for nm in ('report', 'report2', 'other'):
+            got = ents.get(nm)
+            if got is None:
+                if nm == 'other':
+                    return rt.fail('C12:non-matching-removed:under-fault:' + label, nm)
+                continue
+            info, payload = got
+            if info is None:
+                return rt.fail('C12:entry-half-removed:payload-left-without-info:' + label,
+                               'entry %r after a failed removal: info %s, payload %s; exit %r stderr %r' % (
+                                   nm, 'present' if info is not None else 'gone', 'present' if payload is not None else 'gone', r['exit'], r['err'][-200:]))
+            if nm == 'other' and got != was.get(nm):
+                return rt.fail('C12:non-matching-changed:under-fault:' + label, nm)
+        return rt.ok()
+
+
+def w_fault(op: int, kind: int, nth: int, where: int) -> str:
+    """
+    pre: 0 <= op < 6 and 0 <= kind < 3 and 0 <= nth < 3 and 0 <= where < 2
+    post: _ == ''
+    """
+    return _fault_case(rt.sel(op, 6), rt.sel(kind, 3), rt.sel(nth, 3), rt.sel(where, 2))
+
+
 def w_main(pat: int, eset: int, shift: int, dupe: bool) -> str:
     """
     pre: PARTITION is None or eset == PARTITION
@@ -213,4 +263,7 @@ def obligations(tier):
         CH('W_pattern_x_names', MOD, 'w_main', timeout=900, partitions=list(range(6)), engine='W', regime='selector',
            encodes=K.RM_FUNCS, stubs=K.STUBS,
            bounds='31 patterns x 6 name sets (12 names, incl. a+b, c++) x 5 placements over 4 trash dirs on 3 volumes (two of them with the same device string) x duplicate base name'),
+        CH('W_one_failing_removal', MOD, 'w_fault', timeout=600, engine='W', regime='selector', encodes=K.RM_FUNCS + ['CleanableTrashcan.delete_trash_info_and_backup_copy'],
+           stubs=K.STUBS + ['one system call of the removal fails once'],
+           bounds='trash-rm of a pattern matching 2 of 3 entries; the n-th (0..2) unlink / rmdir under files/ or info/ fails (EACCES, EROFS, ENOTEMPTY, EBUSY) x entry a file / a tree / a link to a directory'),
     ]
